@@ -92,7 +92,7 @@ impl Property for C08 {
     }
     fn tape_len(&self, tier: Tier) -> usize { tier.pick(300, 500) }
     fn cases(&self, tier: Tier) -> u32 { tier.pick(60000, 1000000) }
-    fn required_labels(&self, _tier: Tier) -> Vec<&'static str> { vec!["P", "D", "wrapped", "feat:meta", "feat:function", "feat:diff_switch", "feat:pseudo_args", "feat:ternary", "feat:unary_minus", "feat:hex", "feat:subnormal", "feat:escapes", "feat:multibyte_string", "D:negative_literal", "D:blob", "D:float_classes"] }
+    fn required_labels(&self, _tier: Tier) -> Vec<&'static str> { vec!["P", "D", "wrapped", "feat:meta", "feat:function", "feat:diff_switch", "feat:pseudo_args", "feat:ternary", "feat:unary_minus", "feat:hex", "feat:subnormal", "feat:escapes", "feat:multibyte_string", "D:negative_literal", "D:blob", "D:float_classes", "D:unary_op_on_literal"] }
 
     fn generate(&self, tape: &mut Tape, _tier: Tier, known: &Known) -> Value {
         let wseed = tape.raw() as u64;
@@ -137,6 +137,17 @@ impl Property for C08 {
                     }
                     4 => { let s = *tape.pick(&["", "abc", "日本語", "a\"b\\c", "line\nbreak"]); let mut b = crate::model::codec::sjis_encode(s).unwrap(); b.push(0); while b.len() % 4 != 0 { b.push(0); } (404, b, 0) }
                     5 => { let nb = 4 * tape.below(4); let blob: Vec<u8> = (0..nb).map(|_| tape.raw() as u8).collect(); (450 + tape.below(3) as u16, blob, if tape.chance(1, 3) { tape.raw() as u16 & 7 } else { 0 }) }   // unknown signature
+                    6 if !known.has("unary-minus-negative-literal") => {
+                        // a unary-operator intrinsic applied to a literal: `x = -(-3)`, `y = -(-0.0)`, `x = ~(-1)`, `y = sin(-1.5)` ...
+                        let k = tape.below(5);
+                        let float = k == 1 || k == 4;
+                        let lit: u32 = if float { *tape.pick(&classes) } else { *tape.pick(&[0u32, 1, 3, 0xffffffff, 0xfffffffd, 0x7fffffff, 0x80000000, 0x80000001]) };
+                        let lit = if float && f32::from_bits(lit).is_nan() { 0x80000000 } else { lit };
+                        let lit = if known.has("reprint-of-literal-ge-2^31") && !float && lit == 0x80000000 { 0x80000001 } else { lit };
+                        let reg: i32 = if float { 1004 } else { 1000 };
+                        let mut b = vec![]; if float { b.extend((reg as f32).to_le_bytes()); } else { b.extend(reg.to_le_bytes()); } b.extend(lit.to_le_bytes());
+                        (460 + k as u16, b, 1)
+                    }
                     _ => (200, (tape.below(100) as i32 - 50).to_le_bytes().to_vec(), 0),
                 };
                 let difficulty = if tape.chance(1, 6) { *tape.pick(&[0x01u8, 0x0e, 0xf0, 0x3c]) } else { 0xff };
@@ -159,13 +170,19 @@ impl Property for C08 {
         ctx.label("D");
         let mut spec = LangSpec::from_json(&case["spec"]);
         for s in case["sigs"].as_array().unwrap() { spec.sigs.insert(s[0].as_u64().unwrap() as u16, s[1].as_str().unwrap().to_string()); }
-        if case["unary_intrinsic"] == true { spec.sigs.insert(460, "SS".into()); spec.intrinsics.insert(460, Intr::UnOp("-".into(), crate::gen::prog::Ty::Int)); }
+        {
+            use crate::gen::prog::Ty;
+            for (op, sig, name, ty) in [(460u16, "SS", "-", Ty::Int), (461, "ff", "-", Ty::Float), (462, "SS", "!", Ty::Int), (463, "SS", "~", Ty::Int), (464, "ff", "sin", Ty::Float)] {
+                spec.sigs.insert(op, sig.into()); spec.intrinsics.insert(op, Intr::UnOp(name.into(), ty));
+            }
+        }
         let hooks = spec.hooks();
         let instrs: Vec<MInstr> = case["instrs"].as_array().unwrap().iter().map(|i| MInstr { time: i["time"].as_i64().unwrap() as i32, opcode: i["opcode"].as_u64().unwrap() as u16, mask: i["mask"].as_u64().unwrap() as u16,
             blob: i["blob"].as_array().unwrap().iter().map(|b| b.as_u64().unwrap() as u8).collect(), difficulty: i["difficulty"].as_u64().unwrap() as u8 }).collect();
         let mut instrs = instrs;
         if case["unary_intrinsic"] == true { let mut b = vec![]; b.extend(1000i32.to_le_bytes()); b.extend((-3i32).to_le_bytes()); instrs.push(MInstr { time: instrs.last().map(|i| i.time).unwrap_or(0), opcode: 460, mask: 1, blob: b, difficulty: 0xff }); }
         if instrs.iter().any(|i| i.opcode >= 450 && i.opcode < 460) { ctx.label("D:blob"); }
+        if instrs.iter().any(|i| i.opcode >= 460 && i.opcode <= 464) { ctx.label("D:unary_op_on_literal"); }
         // decompile (block recovery on), then run the D checks
         let x = match tx::with_truth(|truth| -> Result<ast::Block, Outcome> {
             truth.apply_mapfile_str(&spec.mapfile_text(), truth::Game::Th10).map_err(|e| { e.ignore(); Outcome::Discard("mapfile rejected".into()) })?;
